@@ -571,6 +571,8 @@ pub fn normalize_panic(loc: &str, msg: &str) -> String
 	// a message that is the Debug dump of a value: keep only its head
 	let msg = match msg.find(" {")
 	{
+		// the Debug dump of some value: the value varies, the site does not
+		Some(i) if i < 40 && !msg[..i].contains(' ') => "<value dump>",
 		Some(i) if i < 40 => &msg[..i],
 		_ => msg,
 	};
